@@ -122,6 +122,9 @@ pub struct FaultOutcome {
     pub status: String,
     /// (ordinal, "class/file kind") of every faultable call of the reference run
     pub classes: Vec<(u64, String)>,
+    /// per table file of the reference run: the ordinals of its last five writes (last data
+    /// block, filter block, metaindex, index, footer - the part `TableBuilder::finalize` writes)
+    pub table_tails: Vec<Vec<u64>>,
 }
 
 /// Execute the plan with at most one injected fault.
@@ -238,6 +241,24 @@ pub fn run_fault(
         }
     }
     raindb::verif::clear(ROOT);
+    let table_tails: Vec<Vec<u64>> = if record_classes {
+        let mut by_path: std::collections::BTreeMap<String, Vec<u64>> = Default::default();
+        for o in fs.oplog().iter() {
+            let (kind, _) = crate::simfs::classify(
+                std::path::Path::new(ROOT),
+                std::path::Path::new(&o.path),
+            );
+            if o.class == "write" && kind == "table" {
+                by_path.entry(o.path.clone()).or_default().push(o.index);
+            }
+        }
+        by_path
+            .into_values()
+            .map(|v| v[v.len().saturating_sub(5)..].to_vec())
+            .collect()
+    } else {
+        vec![]
+    };
     let classes = if record_classes {
         fs.oplog()
             .iter()
@@ -259,5 +280,6 @@ pub fn run_fault(
         fired,
         status,
         classes,
+        table_tails,
     }
 }
